@@ -281,6 +281,15 @@ def rule_split(ctx):
                     continue
                 first_spelling = bool(cs1)
                 VARS = (cs1 or cs2).pop()
+                tried = first_spelling and all(e[:1] == ("try",) and len(e) == 2 for _, alts_ in VARS[1] for _, e in alts_)
+                if tried:
+                    # third spelling: `collect::<Option<_>>()?` read as a collection of `entry?`: a None entry leaves with None by itself
+                    U = call("Itertools::all_unique", VARS)
+                    vars_seen.append(("coll", tuple((srcs_, tuple((ts_, e[1]) for ts_, e in alts_)) for srcs_, alts_ in VARS[1])))
+                    some = C("Option::Some", **{"0": C("Component::PartialDefinition", a=C("AtomicFormula::Atom", **{"0": ATOM}), f=F)})
+                    same, wit = leaves.same_decision(lv, [((("cond", U, False),), NONE), ((("cond", U, True),), some)])
+                    ctx.add("TPL", key, same, site, "head atom: refused if an argument is not a variable or a variable repeats; otherwise partial definition (head atom, body = the other side)", construct=wit)
+                    continue
                 vars_seen.append(VARS)
                 if first_spelling:
                     A, U = ("cond", call("Itertools::contains", VARS, NONE), True), call("Itertools::all_unique", VARS)
